@@ -65,7 +65,7 @@ def make_mf(counter=None, where="field", species=1):
     return oqupy.MeanFieldTempo(mfs, [_bath] * species, _par, [_rho] * species, 0.3 + 0j, 0.0)
 
 
-def make_tebd(start_mps=None, start_step=0, start_time=0.0):
+def make_tebd(start_mps=None, start_step=0, start_time=0.0, chain_control=None):
     n = 3
     sx, sz = 0.5 * oqupy.operators.sigma("x"), 0.5 * oqupy.operators.sigma("z")
     chain = oqupy.SystemChain([2] * n)
@@ -76,7 +76,7 @@ def make_tebd(start_mps=None, start_step=0, start_time=0.0):
     par = oqupy.PtTebdParameters(dt=DT, order=2, epsrel=1e-9)
     mps = start_mps if start_mps is not None else oqupy.AugmentedMPS([oqupy.operators.spin_dm("z+"), oqupy.operators.spin_dm("x+"), oqupy.operators.spin_dm("z-")])
     return oqupy.PtTebd(initial_augmented_mps=mps, system_chain=chain, process_tensors=[None] * n, parameters=par,
-                        start_time=start_time, start_step=start_step, dynamics_sites=[0, 1, (1, 2)])
+                        start_time=start_time, start_step=start_step, dynamics_sites=[0, 1, (1, 2)], chain_control=chain_control)
 
 
 def run_history(kind, targets, counter=None, observe=False):
@@ -197,17 +197,33 @@ def run(chk):
         chk.case(info, ("gibbs", n))
 
     # ---- restart of a chain computation ------------------------------------------------------
-    for k, T in ([(1, 3), (2, 4), (0, 2), (3, 3)] if thorough else [(1, 3), (2, 4)]):
-        full = make_tebd()
+    from oqupy.control import ChainControl
+
+    def mk_cc(with_controls, k, T):
+        """controls scheduled strictly after the restart step (absolute step numbers), pre and post"""
+        if not with_controls:
+            return None
+        cc = ChainControl([2, 2, 2])
+        sxm = np.kron(oqupy.operators.sigma("x"), oqupy.operators.sigma("x").conj())
+        hlf = 0.5 * np.eye(4)
+        if k + 1 <= T:
+            cc.add_single_site_control(sxm, 0, k + 1, False)
+        if k + 1 < T:
+            cc.add_single_site_control(hlf, 1, k + 1, True)
+        if k + 2 <= T:
+            cc.add_single_site_control(sxm, 2, k + 2, False)
+        return cc
+    for k, T, wc in ([(1, 3, False), (2, 4, True), (0, 2, False), (3, 3, False), (1, 4, True), (0, 3, True)] if thorough else [(1, 3, False), (2, 4, True), (1, 4, True)]):
+        full = make_tebd(chain_control=mk_cc(wc, k, T))
         quiet(full.compute, T, progress_type="silent")
         rf = full.get_results()
-        a = make_tebd()
+        a = make_tebd(chain_control=mk_cc(wc, k, T))
         quiet(a.compute, k, progress_type="silent")
-        b = make_tebd(start_mps=a.get_augmented_mps(), start_step=k, start_time=a.time(k))
+        b = make_tebd(start_mps=a.get_augmented_mps(), start_step=k, start_time=a.time(k), chain_control=mk_cc(wc, k, T))
         quiet(b.compute, T, progress_type="silent")
         rb = b.get_results()
         chk.search_cases += 1
-        info = {"driver": "tebd-restart", "k": k, "T": T}
+        info = {"driver": "tebd-restart", "k": k, "T": T, "chain_controls_after_restart": wc}
         ok = np.allclose(rb["time"], rf["time"][k:], rtol=0, atol=1e-12)
         for s in rf["dynamics"]:
             ok = ok and np.allclose(np.array(rb["dynamics"][s].states), np.array(rf["dynamics"][s].states)[k:], rtol=0, atol=TOL)
@@ -217,7 +233,7 @@ def run(chk):
                      f"map fst (dyn _ (compute (list nat) [] (fun l k => l ++ [k]) {T} (restart_from _ s0)))")
         expected.append([int(round(x / DT)) for x in rb["time"]])
         meta.append(info)
-        chk.case(info, ("restart", k, T))
+        chk.case(info, ("restart", k, T, wc))
 
     # ---- transient failure of a user callable at every evaluation index --------------------
     T = 3
